@@ -320,9 +320,11 @@ def idt_plan(family, n_quick, n_thorough, rule, design, exhaustive_note=None):
     def mk(tier, seed):
         n = n_quick if tier == "quick" else n_thorough
         runs = []
-        for sd in ([seed] if tier == "quick" else [seed, seed + 1]):
+        for k, sd in enumerate([seed] if tier == "quick" else [seed, seed + 1]):
             for prof in ("dev", "rel"):
-                runs.append({"name": "%s%d" % (family, sd), "prof": prof, "args": [family, "--seed", str(sd), "--n", str(n)], "vtimeout": 7200})
+                # the exhaustive enumerations (n >= 100000) run once per profile; further seeds add random cases
+                runs.append({"name": "%s%d" % (family, sd), "prof": prof,
+                             "args": [family, "--seed", str(sd), "--n", str(n if k == 0 else min(n, 50000))], "vtimeout": 7200})
         return {"design": [dict(d) for d in design], "runs": runs, "trace_module": "Trace_Idt", "level": "model_checking",
                 "rule": rule, "assumptions": CPU_ASSUME[:1] + ["the 64-bit gate format, vector classes (reserved / error-code / diverging) in Idt.tla are transcribed from SDM vol. 3 ch. 6 (APM vol. 2 ch. 8)"] + ADDR_ASSUME[2:],
                 "exhaustive_note": exhaustive_note}
